@@ -59,6 +59,12 @@ pub const PRELUDE: &[&str] = &[
     "INSERT INTO p VALUES (3, 0), (4, 0)",
     "INSERT INTO cu VALUES (30, 3)",
     "INSERT INTO cd VALUES (40, 4)",
+    // ... and the two other ON UPDATE actions that rewrite child rows
+    "CREATE TABLE cn (id INT, pid INT, FOREIGN KEY (pid) REFERENCES p (id) ON UPDATE SET NULL)",
+    "CREATE TABLE cf (id INT, pid INT DEFAULT 1, FOREIGN KEY (pid) REFERENCES p (id) ON UPDATE SET DEFAULT)",
+    "INSERT INTO p VALUES (5, 0), (6, 0)",
+    "INSERT INTO cn VALUES (50, 5)",
+    "INSERT INTO cf VALUES (60, 6)",
 ];
 
 /// (group, label, sql). The group is the slice the deeper searches are run on; the label names the
@@ -86,6 +92,8 @@ pub const READS: &[(&str, &str, &str)] = &[
     ("fk", "fk-join", "SELECT p.id, c.id FROM p JOIN c ON c.pid = p.id"),
     ("fk", "fk-child-on-update-only", "SELECT id, pid FROM cu"),
     ("fk", "fk-child-on-delete-only", "SELECT id, pid FROM cd"),
+    ("fk", "fk-child-on-update-set-null", "SELECT id, pid FROM cn"),
+    ("fk", "fk-child-on-update-set-default", "SELECT id, pid FROM cf"),
     // FROM-clause shapes that reference u
     ("from", "scan", "SELECT a, d FROM u"),
     ("from", "star", "SELECT * FROM u"),
@@ -153,6 +161,8 @@ pub const FK_WRITES: &[(&str, &str)] = &[
     ("delete:c", "DELETE FROM c WHERE id = 10"),
     ("update-parent-key:p/cu", "UPDATE p SET id = 13 WHERE id = 3"),
     ("delete-parent:p/cd", "DELETE FROM p WHERE id = 4"),
+    ("update-parent-key:p/cn", "UPDATE p SET id = 15 WHERE id = 5"),
+    ("update-parent-key:p/cf", "UPDATE p SET id = 16 WHERE id = 6"),
 ];
 
 /// Extra statements for the adapter driver (its own dispatch decides what each of them does to the cache).
